@@ -401,7 +401,7 @@ func init() {
 		// RSI idle (period) + moving min/max idle (period-1)
 		Warm: func(c []float64) int { return 2*I(c, 0) - 1 },
 		Rule: func(c []float64, b Bars) RuleFn {
-			s := IndRef("momentum.StochasticRsi", c[:1], b.C)[0]
+			s := IndRef("momentum.StochasticRsi", []float64{c[0], c[0]}, b.C)[0]
 			return func(i int, k *Cmp) int {
 				v, ok := k.Val(s, i)
 				if !ok || k.Exempt {
@@ -417,7 +417,7 @@ func init() {
 			}
 		},
 		Cols: func(c []float64, b Bars) map[string]ref.S {
-			return map[string]ref.S{"Stochastic RSI": IndRef("momentum.StochasticRsi", c[:1], b.C)[0]}
+			return map[string]ref.S{"Stochastic RSI": IndRef("momentum.StochasticRsi", []float64{c[0], c[0]}, b.C)[0]}
 		},
 		ScaleFree: true,
 		Note:      "the type has no documented rule beyond 'BuyAt / SellAt define the level at which a Buy / Sell action is generated'; from the code (same shape as RsiStrategy): level test, value <= BuyAt Buy, else value >= SellAt Sell; with the defaults BuyAt 0.8 > SellAt 0.2 this never yields Hold",
